@@ -130,6 +130,15 @@ def check_C06(ctx):
                 rep.ob("C06.entry-wiring", "%s::%s" % (short(path), meth), ok, "%s() must be HandRank::from(%s()) of the same hand" % (meth, inner), pdb.where(key))
     ctx.guard("C06.entry-wiring", entry)
 
+    # link between cards and value for five-card hands, at the granularity this property needs: the value computed
+    # for every hand class lies in that class's range (so name and class describe the cards)
+    from . import rank as R
+    tabs = ctx.guard("T", R.premise_tables, ctx, "T", "class")
+    R.premise_search(ctx, "S", want_gap=False)
+    fac = ctx.guard("F", R.premise_factor, ctx)
+    if fac and tabs:
+        ctx.guard("C06.cards-to-class", R.premise_residual, ctx, fac, tabs[2], "C06.cards-to-class", "class")
+
 
 def cell_constants_loose(node, atom_name):
     """constants compared with the atom anywhere in the DAG (other uses allowed)"""
@@ -166,6 +175,7 @@ def check_C07(ctx):
         dag = ctx.summ(kcmp, [("r", ra), ("r", rb)]).ret
         # the comparison may depend on (a, b) only through comparisons with constants and with each other
         consts = set()
+        nonorder = []
         parents = {}
         for x in walk(dag):
             for ch in children(x):
@@ -179,8 +189,14 @@ def check_C07(ctx):
                         continue
                     if o is a or o is b:
                         continue
-                raise Uncertified("cmp uses a value other than in comparisons (%s)" % (p_[1] if p_[0] in ("bin", "call") else p_[0]), pdb.where(kcmp))
+                nonorder.append(p_[1] if p_[0] in ("bin", "call") else p_[0])
         consts |= {0, 1, 7462, 7463}
+        if nonorder:
+            # values flow through casts/arithmetic: order cells are no longer sound on their own; add the boundaries
+            # where narrowing and wrapping can bite, look for a counterexample, and refuse to certify otherwise
+            for k_ in range(7, 17):
+                consts |= {(1 << k_) - 1, (1 << k_) & 0xFFFF, ((1 << k_) + 1) & 0xFFFF}
+            consts |= {40000, 50000, 65535, 65534, 32767 + 7463, 7463 + 256}
         cells = cell_representatives(consts, "u16")
         reps = set()
         for lo, hi in cells:
@@ -226,6 +242,8 @@ def check_C07(ctx):
                         bad_tr += 1
         rep.evals(len(reps) ** 3)
         rep.ob("C07.cmp-transitive", "all triples", bad_tr == 0, "%d representative triples violate transitivity" % bad_tr, pdb.where(kcmp))
+        if nonorder and not (bad_spec or bad_anti or bad_eq or bad_tr):
+            rep.uncertified("C07.cmp", "cmp uses the values other than in comparisons (%s): representatives cannot certify all 65536x65536 pairs" % sorted(set(nonorder)), pdb.where(kcmp))
         rep.sample({"rule": "C07.cmp", "cells": len(cells), "representatives": len(reps), "pairs": len(table), "triples": len(reps) ** 3,
                     "example": {"a": reps[1], "b": reps[-1], "cmp": table[(reps[1], reps[-1])]}})
         # partial_cmp = Some(cmp)
@@ -282,7 +300,7 @@ class StrModel:
                 return C(1 if pos < len(text) else 0, "bool")
             return C(ord(text[pos]), "char") if pos < len(text) else C(0, "char")
         if m in ("has_token", "token"):
-            toks = text.split()
+            toks = ws_split(text)
             pos = rest[0][1]
             if m == "has_token":
                 return C(1 if pos < len(toks) else 0, "bool")
@@ -297,6 +315,24 @@ class StrModel:
         if m == "str_len":
             return C(len(text.encode("utf-8")), "usize")
         raise Uncertified("string operation %s has no concrete semantics here" % m)
+
+
+WHITE_SPACE = set([0x09, 0x0A, 0x0B, 0x0C, 0x0D, 0x20, 0x85, 0xA0, 0x1680, 0x2028, 0x2029, 0x202F, 0x205F, 0x3000] + list(range(0x2000, 0x200B)))
+
+
+def ws_split(text):
+    """str::split_whitespace: split on Unicode White_Space (not Python's str.split, which also splits on U+001C..1F)"""
+    out, cur = [], ""
+    for ch in text:
+        if ord(ch) in WHITE_SPACE:
+            if cur:
+                out.append(cur)
+            cur = ""
+        else:
+            cur += ch
+    if cur:
+        out.append(cur)
+    return out
 
 
 def expected_card(tok):
@@ -423,7 +459,7 @@ def check_C12(ctx):
         cases = []
         for n in range(0, 10):
             cases.append(" ".join(toks[:n]))
-        cases += ["  A♠\tkh \n 0D  2c xx 9♧ T♡ ", "A♠ kh", "A♠ kh 0D", " A♠   kh ", "A♠\x0bkh"]
+        cases += ["  A♠\tkh \n 0D  2c xx 9♧ T♡ ", "A♠ kh", "A♠ kh 0D", " A♠   kh ", "A♠\x0bkh", "A♠\u00a0kh\u20030D\u30002c xx\u20289♧\u0085T♡", "A♠\x1ckh 0D"]
         targets = [(p_, n) for p_, n in CONTAINERS]
         cnt = 0
         for path, n in targets:
@@ -439,7 +475,7 @@ def check_C12(ctx):
                 for t in cases:
                     env = {"text": C(t, "str"), "$str": StrModel.handler}
                     r = ctx.fold(s_.ret, env)
-                    tk = t.split()
+                    tk = ws_split(t)
                     vn = pdb.variant_name(r[1][1], r[1][2])
                     if len(tk) < n:
                         ok = vn == "Err" and enum_name(pdb, r[2][0]) == "InvalidIndex"
@@ -461,7 +497,7 @@ def check_C12(ctx):
             for t in cases:
                 env = {"text": C(t, "str"), "$str": StrModel.handler}
                 r = ctx.fold(s_.ret, env)
-                tk = t.split()
+                tk = ws_split(t)
                 some = r[1][2] == 1
                 if len(tk) < 5:
                     ok = not some
@@ -486,14 +522,15 @@ def check_C12(ctx):
         toks = ["A♠", "kh", "zz", "0D", "2c", "A♠", "9♧", "T♡", "J♦"]
         bits = {oracle.card_word(r, s_): oracle.bit_for(r, s_) for (r, s_) in oracle.deck_order()}
         nb = 0
-        for n in range(0, 10):
-            t = " ".join(toks[:n])
-            env = {"text": C(t, "str"), "$str": StrModel.handler}
-            got = cval(evaluate(pdb, ret, env))
-            exp = 0
-            for x in toks[:n]:
-                exp |= bits.get(expected_card(x), 0)
-            nb += 0 if got == exp else 1
+        for sep in (" ", "\t \n", "\u00a0", "\u2003", "\u3000 "):
+            for n in range(0, 10):
+                t = sep.join(toks[:n])
+                env = {"text": C(t, "str"), "$str": StrModel.handler}
+                got = cval(evaluate(pdb, ret, env))
+                exp = 0
+                for x in toks[:n]:
+                    exp |= bits.get(expected_card(x), 0)
+                nb += 0 if got == exp else 1
         rep.ob("C12.bitset-parser", "0..9 tokens", nb == 0, "BinaryCard::from_index is not the union over its tokens on %d token counts" % nb, pdb.where(key))
         # loop shape: one loop, left only when the token iterator is exhausted
         cfg = ex.cfg(key)
@@ -700,12 +737,13 @@ def check_C15(ctx):
         toks = ["A♠", "kh", "zz", "0D", "2c", "A♠", "9♧", "T♡", "J♦"]
         bits = {oracle.card_word(r, s_): oracle.bit_for(r, s_) for (r, s_) in oracle.deck_order()}
         nb = 0
-        for n in range(0, 10):
-            env = {"text": C(" ".join(toks[:n]), "str"), "$str": StrModel.handler}
-            exp = 0
-            for x in toks[:n]:
-                exp |= bits.get(expected_card(x), 0)
-            nb += 0 if cval(evaluate(pdb, ret, env)) == exp else 1
+        for sep in (" ", "\t \n", "\u00a0", "\u2003", "\u3000 "):
+            for n in range(0, 10):
+                env = {"text": C(sep.join(toks[:n]), "str"), "$str": StrModel.handler}
+                exp = 0
+                for x in toks[:n]:
+                    exp |= bits.get(expected_card(x), 0)
+                nb += 0 if cval(evaluate(pdb, ret, env)) == exp else 1
         rep.ob("C15.from_text", "0..9 tokens", nb == 0, "from_index is not the set of the distinct real cards among its tokens (%d token counts)" % nb, pdb.where(key))
     ctx.guard("C15.from_text", text)
 
